@@ -1,0 +1,10 @@
+//go:build !verif
+
+package jrpc2
+
+// verifPoint and verifPointS mark scheduling points used by the external
+// verification harness. Without the "verif" build tag they do nothing.
+func verifPoint(site string, key []byte) {}
+func verifPointS(site, key string)       {}
+
+func (ts tasks) verifKey() string { return "" }
